@@ -18,7 +18,41 @@ pub const SIZES: [usize; 3] = [1400, 64, 1];
 pub const RETAINED_LIMIT: isize = 256 * 1024;
 pub const PER_PACKET_LIMIT: usize = 1024 * 1024 + 64 * SEG;
 
-pub const KINDS: [&str; 7] = ["http-head-never-ends", "tls-application-data", "random-bytes", "h2-preface-then-endless-frame", "tls-record-declaring-65535-bytes", "completed-non-hello-handshake-then-application-data", "http-request-complete-then-endless-body"];
+pub const KINDS: [&str; 13] = [
+    "http-head-never-ends",
+    "tls-application-data",
+    "random-bytes",
+    "h2-preface-then-endless-frame",
+    "tls-record-declaring-65535-bytes",
+    "completed-non-hello-handshake-then-application-data",
+    "http-request-complete-then-endless-body",
+    // several complete small records / frames / lines per segment (unit lengths that divide the segment size, and ones that do not)
+    "server-hello-then-many-20-byte-application-data-records",
+    "server-hello-then-many-21-byte-application-data-records",
+    "many-10-byte-non-hello-handshake-records",
+    "many-9-byte-non-hello-handshake-records",
+    "h2-preface-settings-then-many-small-frames",
+    "http-head-of-many-short-lines",
+];
+
+/// kinds whose byte stream is a prefix followed by one unit repeated for ever
+fn periodic(kind: &str) -> Option<(Vec<u8>, Vec<u8>)> {
+    // a complete ServerHello-like handshake record (not a ClientHello): keeps a TLS reader open without a fingerprint
+    let mut server_hello = vec![0x16, 3, 3, 0, 42, 2, 0, 0, 38, 3, 3];
+    server_hello.extend([0x5a; 32]);
+    server_hello.extend([0, 0x13, 0x01, 0]);
+    match kind {
+        "server-hello-then-many-20-byte-application-data-records" => Some((server_hello, [vec![0x17, 3, 3, 0, 15], vec![0xa5; 15]].concat())),
+        "server-hello-then-many-21-byte-application-data-records" => Some((server_hello, [vec![0x17, 3, 3, 0, 16], vec![0xa5; 16]].concat())),
+        // handshake type 14 (ServerHelloDone) with a one-byte / empty body
+        "many-10-byte-non-hello-handshake-records" => Some((vec![], vec![0x16, 3, 3, 0, 5, 14, 0, 0, 1, 0])),
+        "many-9-byte-non-hello-handshake-records" => Some((vec![], vec![0x16, 3, 3, 0, 4, 14, 0, 0, 0])),
+        // PING frames (type 6, 8 bytes) on stream 0 after the preface and an empty SETTINGS frame
+        "h2-preface-settings-then-many-small-frames" => Some(([b"PRI * HTTP/2.0\r\n\r\nSM\r\n\r\n".to_vec(), vec![0, 0, 0, 4, 0, 0, 0, 0, 0]].concat(), vec![0, 0, 8, 6, 0, 0, 0, 0, 0, 1, 2, 3, 4, 5, 6, 7, 8])),
+        "http-head-of-many-short-lines" => Some((b"GET / HTTP/1.1\r\nHost: h\r\n".to_vec(), b"X: y\r\n".to_vec())),
+        _ => None,
+    }
+}
 
 /// payload of segment `i` of a chain
 pub fn payload(kind: &str, i: usize) -> Vec<u8> {
@@ -102,6 +136,9 @@ pub fn payload(kind: &str, i: usize) -> Vec<u8> {
 
 /// segment `i` of a chain cut into `size`-byte segments: the byte stream is the same for every size
 fn stream_slice(kind: &str, from: usize, len: usize) -> Vec<u8> {
+    if let Some((pre, unit)) = periodic(kind) {
+        return (from..from + len).map(|p| if p < pre.len() { pre[p] } else { unit[(p - pre.len()) % unit.len()] }).collect();
+    }
     let mut out = Vec::with_capacity(len);
     let mut seg = from / SEG;
     let mut off = from % SEG;
@@ -281,7 +318,7 @@ pub fn run(thorough: bool) -> Outcome {
     }
     Outcome {
         report: total,
-        rule: "deterministic chains: SYN, SYN+ACK, then N segments (1400, 64 or 1 byte each, same byte stream) of 7 never-fingerprinting traffic kinds x both directions x 4 analyzers; after EVERY packet: bytes retained since the connection started <= 256 KiB and bytes allocated while handling the packet <= 1 MiB + 64 x segment size (counting allocator, per thread); capacity families: capacity + k connections for capacities 1, 8, 1000; distinct = distinct (chain, peak) outcomes".into(),
+        rule: "deterministic chains: SYN, SYN+ACK, then N segments (1400, 64 or 1 byte each, same byte stream) of 13 never-fingerprinting traffic kinds (incl. many complete small records / frames / lines per segment) x both directions x 4 analyzers; after EVERY packet: bytes retained since the connection started <= 256 KiB and bytes allocated while handling the packet <= 1 MiB + 64 x segment size (counting allocator, per thread); capacity families: capacity + k connections for capacities 1, 8, 1000; distinct = distinct (chain, peak) outcomes".into(),
         exhaustive: true,
         bounds: json!({"segments_per_chain": n, "segment_bytes": SIZES, "chains": jobs.len(), "retained_limit": RETAINED_LIMIT, "per_packet_limit": PER_PACKET_LIMIT}),
     }
